@@ -68,7 +68,7 @@ def run_variant(prop: str, v: V, root: str = None) -> Dict:
         ctx = report.Ctx(repo, prop, "quick", quiet=True)
         mod.run(ctx)
         viols = ctx.violations()
-        err = None
+        err = " ; ".join(f"[{rid}] {msg}" for rid, msg in ctx.errors) or None
     except AnalysisError as e:
         viols, err = [], f"{type(e).__name__}: {e}"
     except Exception as e:  # checker crash on a variant = blind spot
